@@ -35,11 +35,21 @@ type variant struct {
 	Part  string `json:"part"`
 	H     int    `json:"h"`
 	Item  int    `json:"item"`
-	Path  string `json:"path"` // the message-typed field that is cleared ("" with Oneof)
+	Path  string `json:"path"` // the message-typed field that is cleared ("" with Oneof / Synth: nothing is cleared)
 	Oneof bool   `json:"oneof,omitempty"`
+	// Synth: the item is first replaced by a synthetic, fully populated message in which this oneof
+	// alternative (full protobuf name) is chosen — for the message types the source chain does not
+	// contain (e.g. a DECLARE v0)
+	Synth string `json:"synth,omitempty"`
 }
 
 func (v variant) String() string {
+	if v.Synth != "" {
+		if v.Path == "" {
+			return fmt.Sprintf("%s[%d]/block %d: a synthetic message with alternative %s", v.Part, v.Item, v.H, v.Synth)
+		}
+		return fmt.Sprintf("%s[%d]/block %d: a synthetic message with alternative %s, %s absent", v.Part, v.Item, v.H, v.Synth, v.Path)
+	}
 	if v.Oneof {
 		return fmt.Sprintf("%s[%d]/block %d: message with no alternative set at %s", v.Part, v.Item, v.H, v.Path)
 	}
@@ -111,13 +121,112 @@ func clearAt(m protoreflect.Message, path string) bool {
 
 func (v variant) apply(raw []byte) []byte {
 	m := newResponse(v.Part)
-	if proto.Unmarshal(raw, m) != nil {
+	if v.Synth != "" {
+		populate(m.ProtoReflect(), protoreflect.FullName(v.Synth), 0)
+		if v.Path == "" {
+			return mustMarshal(m)
+		}
+	} else if proto.Unmarshal(raw, m) != nil {
 		return nil
 	}
 	if !clearAt(m.ProtoReflect(), v.Path) {
 		return nil
 	}
 	return mustMarshal(m)
+}
+
+// populate fills m completely: every message-typed field present (a repeated one with one element),
+// every scalar non-default; of each oneof the alternative named alt when it is one of its members,
+// the first one otherwise.
+func populate(m protoreflect.Message, alt protoreflect.FullName, depth int) {
+	if depth > 12 {
+		return
+	}
+	fields := m.Descriptor().Fields()
+	for i := 0; i < fields.Len(); i++ {
+		fd := fields.Get(i)
+		if od := fd.ContainingOneof(); od != nil && !od.IsSynthetic() {
+			chosen := od.Fields().Get(0)
+			if a := od.Fields().ByName(alt.Name()); a != nil && a.FullName() == alt {
+				chosen = a
+			}
+			if chosen != fd {
+				continue
+			}
+		}
+		scalar := func() (protoreflect.Value, bool) {
+			switch fd.Kind() {
+			case protoreflect.BytesKind:
+				b := make([]byte, 32)
+				b[31] = byte(1 + i)
+				return protoreflect.ValueOfBytes(b), true
+			case protoreflect.StringKind:
+				return protoreflect.ValueOfString("x"), true
+			case protoreflect.Uint64Kind, protoreflect.Fixed64Kind:
+				return protoreflect.ValueOfUint64(1), true
+			case protoreflect.Uint32Kind, protoreflect.Fixed32Kind:
+				return protoreflect.ValueOfUint32(1), true
+			case protoreflect.BoolKind:
+				return protoreflect.ValueOfBool(true), true
+			}
+			return protoreflect.Value{}, false
+		}
+		switch {
+		case fd.IsMap():
+		case fd.IsList():
+			l := m.Mutable(fd).List()
+			if fd.Kind() == protoreflect.MessageKind {
+				populate(l.AppendMutable().Message(), alt, depth+1)
+			} else if v, ok := scalar(); ok {
+				l.Append(v)
+			}
+		case fd.Kind() == protoreflect.MessageKind:
+			populate(m.Mutable(fd).Message(), alt, depth+1)
+		default:
+			if v, ok := scalar(); ok {
+				m.Set(fd, v)
+			}
+		}
+	}
+}
+
+// alternatives lists every member of every oneof reachable from md (full names).
+func alternatives(md protoreflect.MessageDescriptor, seen map[protoreflect.FullName]bool, out *[]protoreflect.FullName) {
+	if seen[md.FullName()] {
+		return
+	}
+	seen[md.FullName()] = true
+	fields := md.Fields()
+	for i := 0; i < fields.Len(); i++ {
+		fd := fields.Get(i)
+		if od := fd.ContainingOneof(); od != nil && !od.IsSynthetic() {
+			*out = append(*out, fd.FullName())
+		}
+		if fd.Kind() == protoreflect.MessageKind && !fd.IsMap() {
+			alternatives(fd.Message(), seen, out)
+		}
+	}
+}
+
+// group: the kind of peer-supplied message the variant alters (the signature of a crash: one
+// finding per kind of message, the field and the crash site are in the text).
+func (v variant) group() string {
+	path := v.Path
+	if path == "" {
+		return v.Part + ".synthetic"
+	}
+	segs := strings.Split(strings.TrimPrefix(regexp.MustCompile(`\[\d+\]`).ReplaceAllString(path, ""), "."), ".")
+	if v.Part == pTxs && len(segs) > 1 {
+		return v.Part + "." + segs[1] // transaction | receipt
+	}
+	return v.Part + "." + segs[0]
+}
+
+func (v variant) key() string {
+	if v.Synth != "" && v.Path == "" {
+		return v.Part + "<synthetic " + v.Synth + ">"
+	}
+	return shapeKey(v.Part, v.Path)
 }
 
 // shapeKey: the path without list indices — one variant per message shape is enough.
@@ -150,6 +259,40 @@ func enumerateVariants(w *world, ref *simPeer) []variant {
 			}
 		}
 	}
+	// what the source chain does not contain: a synthetic, fully populated message per oneof
+	// alternative of the wire format, and its one-field-missing variants — only the shapes not
+	// already covered with real data
+	for _, part := range partOrder {
+		at := -1
+		for h := 0; h < w.A.height() && at < 0; h++ {
+			if items, _ := ref.items(part, uint64(h)); len(items) > 0 {
+				at = h
+			}
+		}
+		if at < 0 {
+			continue
+		}
+		var alts []protoreflect.FullName
+		alternatives(newResponse(part).ProtoReflect().Descriptor(), map[protoreflect.FullName]bool{}, &alts)
+		for _, alt := range alts {
+			m := newResponse(part)
+			populate(m.ProtoReflect(), alt, 0)
+			var msgs, oneofs []string
+			messagePaths(m.ProtoReflect(), "", &msgs, &oneofs)
+			sort.Strings(msgs)
+			fresh := false
+			for _, p := range msgs {
+				if k := shapeKey(part, p); !seen[k] {
+					seen[k] = true
+					fresh = true
+					out = append(out, variant{Part: part, H: at, Item: 0, Path: p, Synth: string(alt)})
+				}
+			}
+			if fresh {
+				out = append(out, variant{Part: part, H: at, Item: 0, Synth: string(alt)})
+			}
+		}
+	}
 	return out
 }
 
@@ -168,6 +311,15 @@ type robustOutcome struct {
 // runVariant: one ProcessBlock of the real BlockFetcher against a peer that answers honestly except
 // for the one altered message.
 func runVariant(w *world, ref *simPeer, v variant) string {
+	res := runVariantOnce(w, ref, v, 60*time.Second)
+	if res == "hang" {
+		// wall-clock time on a shared machine: a real hang is there the second time as well
+		res = runVariantOnce(w, ref, v, 300*time.Second)
+	}
+	return res
+}
+
+func runVariantOnce(w *world, ref *simPeer, v variant, limit time.Duration) string {
 	node, err := w.newSyncNode(v.H, nil)
 	if err != nil {
 		return "harness:" + err.Error()
@@ -188,7 +340,7 @@ func runVariant(w *world, ref *simPeer, v variant) string {
 		s.feed(out, "eof")
 	}
 	bf := p2psync.NewBlockFetcher(node.BC, &fakeCompiler{}, net, chainkit.Network, log.NewNopZapLogger())
-	ctx, cancel := context.WithTimeout(context.Background(), 20*time.Second)
+	ctx, cancel := context.WithTimeout(context.Background(), limit)
 	defer cancel()
 	outCh := make(chan p2psync.BlockBody, 8)
 	done := make(chan error, 1)
@@ -306,6 +458,7 @@ func TestP2PSyncRobust(t *testing.T) {
 	}
 	out.Count("robust_variants", len(vs))
 	results := map[string]int{}
+	outcomes := map[string]string{} // per message shape: what the requesting side made of it
 	next := 0
 	for next < len(vs) {
 		progress := fmt.Sprintf("%s/robust-progress-%d.txt", vh.Scratch(), next)
@@ -333,18 +486,19 @@ func TestP2PSyncRobust(t *testing.T) {
 		for i, r := range finished {
 			v := vs[next+i]
 			results[strings.SplitN(r, ":", 2)[0]]++
+			outcomes[v.key()] = strings.SplitN(r, ":", 2)[0]
 			switch {
 			case strings.HasPrefix(r, "good-differs") && uncommitted[v.Part].MatchString(v.Path):
 				// a field nothing commits to (see TestP2PSyncLimits): stored as the peer sent it
 				results["planted"]++
 				results["good-differs"]--
 			case strings.HasPrefix(r, "good-differs"), r == "good-unstorable":
-				out.Diverge(vh.Divergence{Key: "p2psync:malformed-accepted:" + shapeKey(v.Part, v.Path),
+				out.Diverge(vh.Divergence{Key: "p2psync:malformed-accepted:" + v.key(),
 					What:  "an answer with " + v.String() + " passed verification but is not the source's block: " + r,
 					Input: vh.J{"world": in.World, "variants": []variant{v}}})
 			case r == "hang":
-				out.Diverge(vh.Divergence{Key: "p2psync:hang:" + shapeKey(v.Part, v.Path),
-					What:  "ProcessBlock did not return within 20 s for an answer with " + v.String(),
+				out.Diverge(vh.Divergence{Key: "p2psync:hang:" + v.key(),
+					What:  "ProcessBlock did not return (60 s, then 300 s) for an answer with " + v.String(),
 					Input: vh.J{"world": in.World, "variants": []variant{v}}})
 			case strings.HasPrefix(r, "harness:"):
 				t.Fatalf("harness: %s", r)
@@ -363,7 +517,8 @@ func TestP2PSyncRobust(t *testing.T) {
 			t.Fatalf("robust child died without a panic (%v):\n%s", runErr, tailStr(buf.String(), 3000))
 		}
 		results["crash"]++
-		out.Diverge(vh.Divergence{Key: "p2psync:crash:" + site,
+		outcomes[v.key()] = "crash:" + site
+		out.Diverge(vh.Divergence{Key: "p2psync:crash:absent-field:" + v.group(),
 			What:     fmt.Sprintf("an answer with %s kills the process: %s in %s", v.String(), head, site),
 			Input:    vh.J{"world": in.World, "variants": []variant{v}},
 			Observed: tailStr(buf.String()[strings.Index(buf.String(), head):], 1500)})
@@ -372,6 +527,10 @@ func TestP2PSyncRobust(t *testing.T) {
 	}
 	for k, n := range results {
 		out.Count("robust:"+k, n)
+	}
+	if os.Getenv("VH_ROBUST_OUTCOMES") != "" { // development aid
+		b, _ := json.MarshalIndent(outcomes, "", " ")
+		_ = os.WriteFile(os.Getenv("VH_ROBUST_OUTCOMES"), b, 0o644)
 	}
 	out.Done(len(vs), len(vs))
 }
